@@ -465,6 +465,7 @@ func Run(cfg Config, root func()) *Result {
 		cfg.FS.sim = s
 	}
 	cur = s
+	resetPools()
 	mode.Store(ModeSerial)
 	defer func() {
 		mode.Store(ModeOff)
